@@ -35,12 +35,30 @@ pub fn is_valid_identifier(s: &str) -> bool {
     chars.all(|c| c.is_ascii_alphanumeric() || c == '_')
 }
 
+/// Source text of a string value. String literals have no escape sequences: a literal is
+/// delimited by `"` or `'` and holds every character up to the next delimiter, so the text is
+/// wrapped in a delimiter it does not contain. A text containing both kinds is written as a
+/// (parenthesised) concatenation of literals.
+pub fn string_to_source(s: &str) -> String {
+    if !s.contains('"') {
+        format!("\"{}\"", s)
+    } else if !s.contains('\'') {
+        format!("'{}'", s)
+    } else {
+        let pieces: Vec<String> = s.split('"').map(|piece| format!("\"{}\"", piece)).collect();
+        format!("({})", pieces.join(" + '\"' + "))
+    }
+}
+
 /// Format a record key, adding quotes if necessary
 pub fn format_record_key(key: &str) -> String {
     if is_valid_identifier(key) {
         key.to_string()
+    } else if key.contains('"') && key.contains('\'') {
+        // no single literal can hold both quote characters: use a computed key
+        format!("[{}]", string_to_source(key))
     } else {
-        format!("\"{}\"", key.replace('\\', "\\\\").replace('"', "\\\""))
+        string_to_source(key)
     }
 }
 
@@ -303,7 +321,7 @@ pub fn expr_to_source_with_scope(
                 n.to_string()
             }
         }
-        Expr::String(s) => format!("\"{}\"", s.replace("\\", "\\\\").replace("\"", "\\\"")),
+        Expr::String(s) => string_to_source(s),
         Expr::Bool(b) => b.to_string(),
         Expr::Null => "null".to_string(),
         Expr::BuiltIn(built_in) => built_in.name().to_string(),
@@ -466,9 +484,7 @@ fn serializable_value_to_source(value: &SerializableValue) -> String {
         }
         SerializableValue::Bool(b) => b.to_string(),
         SerializableValue::Null => "null".to_string(),
-        SerializableValue::String(s) => {
-            format!("\"{}\"", s.replace("\\", "\\\\").replace("\"", "\\\""))
-        }
+        SerializableValue::String(s) => string_to_source(s),
         SerializableValue::List(items) => {
             let items_str: Vec<String> = items.iter().map(serializable_value_to_source).collect();
             format!("[{}]", items_str.join(", "))
